@@ -16,7 +16,7 @@ PROP = dict(
         4: ("hypothesis-failed", "the state COMMIT started from does not satisfy commit_ready, or a call of the model's list is not enabled (harness/model error)", False),
         6: ("remove-rename-window", "killed between unlinkat(table) and renameat(temp, table): the table file does not exist, its complete new contents are only in the hidden temp file", True),
     },
-    expected=lambda kind, cid: "Eval vm_compute in (map expected_c10 (filter (fun c => N.eqb (cid c) %d || N.eqb (cwin c) %d) cases))." % (cid, cid),
+    expected=lambda kind, cid: None if kind == 6 else "Eval vm_compute in (map expected_c10 (filter (fun c => N.eqb (cid c) %d || N.eqb (cwin c) %d) cases))." % (cid, cid),
     trusted=_COMMON + [
         "strace 6.1 reports every system call of the traced process tree in order, and inject=...:signal=SIGKILL:when=N kills the process before the call executes",
         "modelled, not verified: POSIX semantics of openat(O_CREAT|O_EXCL), ftruncate, write, unlinkat and the atomicity of renameat (Model/Fs.v step); bytes reach the file in write order (no power-loss reordering: the property is about process death, not about fsync)",
